@@ -90,12 +90,17 @@ def _enum_case(sp, op, a, accm):
 
 
 def _useless(case):
-    """placements that cannot be expressed (tmp as an instance output / at architecture level)"""
+    """placements that cannot be expressed: an intermediate value as an instance output / at architecture level, or
+    consumed before any site has computed it (fails with IndexError in the pyeval helper at trace time)"""
+    first = {}
     for s in case["sites"]:
-        for o, rw, acc in s["acts"]:
-            if case["objs"][o]["k"] == "tmp" and (s["k"] == "inst" or (s["k"] == "inline" and "w" in rw)):
-                return True
-    return False
+        for o, rw, acc in list(s.get("body", [])) + list(s["acts"]):
+            if case["objs"][o]["k"] == "tmp":
+                if s["k"] == "inst" or (s["k"] == "inline" and "w" in rw):
+                    return True
+                if o not in first:
+                    first[o] = rw
+    return any("w" not in rw for rw in first.values())
 
 
 def plan(tier):
